@@ -440,13 +440,16 @@ def capture_trees(P, g):
     return par, []
 
 
-def resolve_captures(P, g, tree):
-    """replace `<closure env>.N` projections in a tree of closure g by the captured value's tree in the parent"""
+def resolve_captures(P, g, tree, depth=3):
+    """replace `<closure env>.N` projections in a tree of closure g by the captured value's tree in the parent (and, when the parent
+    is a closure itself, on through its captures)"""
     if g.kind != 'closure':
         return tree
     par, caps = capture_trees(P, g)
     if not caps:
         return tree
+    if par is not None and par.kind == 'closure' and depth > 0:
+        caps = [resolve_captures(P, par, c, depth - 1) for c in caps]
 
     def rec(t):
         if not isinstance(t, tuple) or not t:
